@@ -316,6 +316,9 @@ func typeRangeFacts(v Val) []string {
 
 func collectRanges(t types.Type, L []string, out *[]string) {
 	t = types.Unalias(t)
+	if typeKey(t) == "time.Time" {
+		return
+	}
 	if lo, hi, ok := intRange(t); ok && len(L) == 1 {
 		*out = append(*out, "(<= "+lo+" "+L[0]+")", "(<= "+L[0]+" "+hi+")")
 		return
@@ -359,6 +362,9 @@ func refLeaves(t types.Type) []int {
 	walk = func(t types.Type, off int) int {
 		t = types.Unalias(t)
 		n := len(leavesOf(t))
+		if typeKey(t) == "time.Time" {
+			return n
+		}
 		switch u := t.Underlying().(type) {
 		case *types.Pointer, *types.Map, *types.Chan:
 			if n == 1 {
